@@ -12,7 +12,7 @@ for f in files:
         if not m:
             continue
         sid, prop, cd, md, su, ex, cb = m.groups()
-        cb = cb.split(" only=")[0]
+        cb = cb.split(" only=")[0].split(" mode=")[0]
         hist.setdefault(sid, []).append({"round": rnd, "clean_demo": cd, "mutant_demo": md, "suite": su, "exit": ex,
                                          "caught_by": sorted(set(x for x in cb.split(",") if x))})
 rows = []
